@@ -293,6 +293,7 @@ class Runner:
         setup_layers = {}
         layers_to_run = list(self.ordered_layers())
         should_resume = False
+        end_run = False
 
         while layers_to_run:
             layer_name, layer, tests = layers_to_run[0]
@@ -303,7 +304,9 @@ class Runner:
                                       setup_layers, self.failures, self.errors,
                                       self.skipped, self.import_errors)
             except zope.testrunner.interfaces.EndRun:
-                self.failed = True
+                # The failure that was debugged post-mortem has not been
+                # added to ``self.failures``/``self.errors``.
+                end_run = True
                 break
             except CanNotTearDown:
                 if not self.options.resume_layer:
@@ -331,7 +334,8 @@ class Runner:
             tear_down_unneeded(
                 self.options, (), setup_layers, self.errors, optional=True)
 
-        self.failed = bool(self.import_errors or self.failures or self.errors)
+        self.failed = bool(
+            end_run or self.import_errors or self.failures or self.errors)
 
 
 def handle_layer_failure(failure_type, output, errors):
